@@ -86,7 +86,8 @@ def daughter_thresholds(name):
 
 
 def dbd_line(table, name, level, mode, window=None, tol=0.003, work_bound=0):
-    e1, e2, w = (window[0], window[1], 1) if window else (0.0, 4.3, 0)
+    # a window limit given as None is left undefined (NaN) in the request: one-sided window (spec encoding -999)
+    e1, e2, w = (-999.0 if window[0] is None else window[0], -999.0 if window[1] is None else window[1], 1) if window else (0.0, 4.3, 0)
     Q = q_of(table, name, mode)
     thr = daughter_thresholds(name) if level > 0 or name in schemes.EXTRA_PARTS else []
     return "D %s %d %d %.17g %.17g %d %.17g %d %d %.17g %d%s" % (
